@@ -798,6 +798,10 @@ class OpsMixin:
 
     def pow2(self, e):
         f = z3.Function("pow2", z3.IntSort(), z3.IntSort())
+        # facts about 2**e used with a symbolic exponent: positive for e >= 0, 2**0 == 1, one unfolding
+        self.run.assume(z3.Implies(e >= 0, f(e) >= 1))
+        self.run.assume(z3.Implies(e == 0, f(e) == 1))
+        self.run.assume(z3.Implies(e >= 1, f(e) == 2 * f(e - 1)))
         return f(e)
 
     def pow_uf(self, a, b):
